@@ -333,7 +333,7 @@ func (x *executor) histOnce(s *envSlot, k *kase) (h histOutcome) {
 	h.mutErr = !mv.value
 	fp1 := ""
 	var obj1 *lisp.LVal
-	if c, g := guarded("fingerprint", func() { obj1 = x.globalV(s); fp1 = fingerprint(obj1) }); c != "" {
+	if c, g := guarded("render-after-mutation", func() { obj1 = x.globalV(s); fp1 = fingerprint(obj1) }); c != "" {
 		h.v, h.where = verdict{class: c, got: g}, "render-after-mutation"
 		return h
 	}
